@@ -19,6 +19,9 @@ from mutants import MUTANTS
 
 PROPS = ["C01", "C02", "C03", "C04", "C06", "C07", "C08", "C09", "C10", "C12", "C13", "C14", "C15", "C16", "C20"]
 VERIF = "/verif"
+# sources of the simulator: the working tree, or a snapshot of an earlier commit (to measure what an earlier
+# version of the checks would have caught)
+SRC = os.environ.get("VERIF_SNAPSHOT", VERIF)
 ENV = dict(os.environ, RUST_BACKTRACE="0", CARGO_NET_OFFLINE="true")
 
 
@@ -34,12 +37,12 @@ def prepare(tag):
     os.makedirs(f"{root}/repo")
     sh(f"git -C /repo archive HEAD | tar -x -C {root}/repo")
     os.makedirs(f"{root}/sim/.cargo")
-    shutil.copytree(f"{VERIF}/sim/src", f"{root}/sim/src")
-    os.symlink(f"{VERIF}/roots", f"{root}/roots")
-    toml = open(f"{VERIF}/sim/Cargo.toml").read().replace('/repo/cozy-chess', f'{root}/repo/cozy-chess')
+    shutil.copytree(f"{SRC}/sim/src", f"{root}/sim/src")
+    os.symlink(f"{SRC}/roots", f"{root}/roots")
+    toml = open(f"{SRC}/sim/Cargo.toml").read().replace('/repo/cozy-chess', f'{root}/repo/cozy-chess')
     open(f"{root}/sim/Cargo.toml", "w").write(toml)
-    shutil.copy(f"{VERIF}/sim/Cargo.lock", f"{root}/sim/Cargo.lock")
-    shutil.copy(f"{VERIF}/sim/.cargo/config.toml", f"{root}/sim/.cargo/config.toml")
+    shutil.copy(f"{SRC}/sim/Cargo.lock", f"{root}/sim/Cargo.lock")
+    shutil.copy(f"{SRC}/sim/.cargo/config.toml", f"{root}/sim/.cargo/config.toml")
     return root
 
 
@@ -59,7 +62,7 @@ def evaluate(tag, apply, runs, baseline, threads):
         caught = {}
         for p in PROPS:
             n = runs // 4 if p == "C04" else runs
-            r = sh(f"{root}/sim/target/release/cozy-sim run --prop {p} --runs {n} --seed 1 --threads {threads} --known {VERIF}/known_findings.txt --replay-dir {root}/replays", cwd=root)
+            r = sh(f"{root}/sim/target/release/cozy-sim run --prop {p} --runs {n} --seed 1 --threads {threads} --known {SRC}/known_findings.txt --replay-dir {root}/replays", cwd=root)
             if r.returncode == 1:
                 cls = [l.split("class:")[1].strip() for l in r.stdout.splitlines() if l.strip().startswith("class:")]
                 caught[p] = cls[0] if cls else "?"
